@@ -106,6 +106,10 @@ func domainCalls() []*Expr {
 		}
 	}
 	out = append(out, eCall("random_range", eNum(1, 1)), eCall("random_range", eNum(5, 1), eNum(1, 1)))
+	// bounds that are not whole numbers with no integer between them are out of domain as well
+	out = append(out, eCall("random_range", eNum(1, 4), eNum(3, 4)), eCall("random_range", eNeg(eNum(3, 4)), eNeg(eNum(1, 4))),
+		eCall("random_range", eNum(1, 2), eNum(3, 2)), eCall("random_range", eNeg(eNum(3, 2)), eNeg(eNum(1, 2))),
+		eCall("random_range", eNum(5, 2), eNum(11, 4)), eCall("dice", eNum(1, 2)), eCall("dice", eNum(3, 4)), eCall("dice", eNeg(eNum(1, 2))), eCall("dice", eNum(5, 4)))
 	// every class of faulty expression, on its own (the statement kinds below place it in a line, an
 	// assignment, conditions of if / options, option text, a command argument, a call statement)
 	out = append(out,
